@@ -99,7 +99,23 @@ std::string fmt(const char *f, ...) __attribute__((format(printf, 1, 2)));
 struct SimAlloc {
 	lzma_allocator a;
 	struct Blk { size_t size; uint32_t seq; bool big; };
-	std::unordered_map<void *, Blk> live;
+	// Live-block table: fixed-size open addressing in one mmap'ed region, so
+	// that the bookkeeping itself never calls malloc/free from a simulated
+	// thread (ThreadSanitizer would see those as unsynchronised accesses of
+	// the harness, not of liblzma).
+	struct Slot { void *ptr; Blk blk; };   // ptr: NULL empty, (void*)1 tombstone
+	struct LiveTable {
+		Slot *slots = nullptr;
+		size_t cap = 0, n = 0, used = 0;
+		LiveTable();
+		~LiveTable();
+		Blk *find(void *p);
+		void insert(void *p, const Blk &b);
+		void erase(void *p);
+		size_t size() const { return n; }
+		void clear();
+		template <class F> void each(F f) { for (size_t i = 0; i < cap; ++i) if ((uintptr_t)slots[i].ptr > 1) f(slots[i].ptr, slots[i].blk); }
+	} live;
 	uint64_t cur = 0, peak = 0, total_allocs = 0, total_frees = 0;
 	uint32_t seq = 0;         // allocation counter since last reset_seq()
 	// fault plan
